@@ -203,6 +203,13 @@ class Run(object):
                 self.raised_ok += 1
                 self.t = None
                 return "raised"
+            if thr != 0 and isinstance(exc, IndexError) and any(int(r) == 0 for r in t.ranks):
+                # the relative cut removed every direction that carried weight: the remainder is exactly zero, the next
+                # s/s[0] is 0/0, a bond gets rank 0 and s[0] no longer exists.  Same undefined case as a zero tensor
+                # with a positive threshold (5.3), only reached in the middle of the call.
+                self.probes["threshold_wiped_out_tensor_mid_call"] += 1
+                self.t = None
+                return "raised"
             self._fail("C03", op, "raised", {"exception": repr(exc)[:300], "args": a}, rec)
         self.pairs.add((op, s, e, d))
         # returned reference and receiver
@@ -341,6 +348,10 @@ class Run(object):
         if exc is not None:
             if self._legal_raise(exc, rec):
                 self.raised_ok += 1
+                self.t = None
+                return "raised"
+            if thr != 0 and isinstance(exc, IndexError) and "size 0" in str(exc):
+                self.probes["threshold_wiped_out_tensor_mid_call"] += 1   # see _op_sweep
                 self.t = None
                 return "raised"
             self._fail("C04", op, "raised", {"exception": repr(exc)[:300], "args": a}, rec)
